@@ -23,7 +23,7 @@ pub fn get() -> FunctionDefinitions {
                         if str.len() < index {
                             Some(str.into())
                         } else {
-                            let head = str[..index].to_string();
+                            let head: String = str.chars().take(index).collect();
                             Some(head.into())
                         }
                     } else {
